@@ -16,7 +16,7 @@ from ..core import Violation, Outcome
 ID = 'C11'
 TITLE = 'results are plain data, the source stays reusable'
 RULE = ('merged trees from 1-3 stages over priority/!del/!merge tags (keys incl. underscore and ints) with dynamic leaves injected (!call, !bind, '
-        '!eval, f-string, !xref, !path, !import, !null) and a history of up to 8 steps: re-evaluate the kept source, mutate the evaluated '
+        '!eval (also one that changes the tree under evaluation through its context), f-string, !xref, !path, !import, !null) and a history of up to 8 steps: re-evaluate the kept source, mutate the evaluated '
         'config (set / delete / append / nested / attribute assignment / update / pop / clear / attribute reads), deep-copy it, with fresh contexts or '
         'one shared user-supplied EvalContext; non-trivial = >=1 dynamic node, depth >=2 and >=1 '
         'mutation followed by a re-evaluation; distinct = hash of the case')
@@ -93,10 +93,17 @@ def _case(draw):
     # a reference written before its (mutable) target, in the first and in the last document
     for d in (docs[0], docs[-1]):
         d['items'] = [['fwd', tdoc.raw('anchor.deep', '!xref')]] + [kv for kv in d['items'] if kv[0] != 'fwd']
+    hook = draw(st.integers(0, 2)) == 0
+    if hook:
+        # a dynamic node whose code reaches into the tree that is being evaluated (through the evaluation context) and changes it:
+        # 'hooked' stands before it, so it has been evaluated by then - the change only shows where the tree is used again
+        for d in docs:
+            d['items'] = [['hooked', tdoc.sq([], flow=True)], ['hook', tdoc.raw("ayns.ctx.cfg['hooked'].append(1) or 5", '!eval', q='dq')]] + \
+                [kv for kv in d['items'] if kv[0] not in ('hooked', 'hook')]
     docs[0]['items'].append(['strs', tdoc.sq([tdoc.sc('s'), tdoc.sc('', q='single'), tdoc.sc('yes', q='double'), tdoc.sc('multi\nline')])])
     ops = draw(st.lists(st.tuples(st.sampled_from(['reeval', 'set', 'del', 'append', 'nested', 'attr', 'deepcopy', 'reeval', 'update', 'pop', 'clear', 'read']),
                                   st.integers(0, 9), st.integers(0, 9)), min_size=1, max_size=8))
-    return {'docs': docs, 'ops': [list(o) for o in ops], 'ndyn': ctr[0], 'shared_ctx': draw(st.booleans())}
+    return {'docs': docs, 'ops': [list(o) for o in ops], 'ndyn': ctr[0] + (1 if hook else 0), 'shared_ctx': draw(st.booleans()), 'hook': hook}
 
 
 def strategy():
@@ -214,7 +221,7 @@ def run_case(case):
     _no_nodes(cfg, 'cfg', src)
     mirror(source, cfg, [], src)
     first = cmp_repr(cfg)
-    labels = {'dyn=%d' % min(case['ndyn'], 4), 'stages=%d' % len(texts), 'ctx=' + ('shared' if ctx is not None else 'fresh')}
+    labels = {'tree-changing-eval' if case.get('hook') else 'no-tree-changing-eval', 'dyn=%d' % min(case['ndyn'], 4), 'stages=%d' % len(texts), 'ctx=' + ('shared' if ctx is not None else 'fresh')}
     mutated = False
     nontrivial = False
     hist = []
